@@ -7,7 +7,7 @@ s = open(p).read()
 i = s.index("## 8. Sensitivity: independently seeded breakages")
 notes = json.load(open(os.path.join(HERE, "tools", "seed_notes.json")))
 last = {r["id"]: r for r in json.load(open(os.path.join(HERE, "seeded", "last_run.json")))}
-rows, missed, built, neigh, bydesign = [], 0, 0, [], []
+rows, missed, built, neigh, bydesign, outside = [], 0, 0, [], [], []
 per_round = {}
 for sid in sorted(last):
     r = last[sid]
@@ -20,7 +20,10 @@ for sid in sorted(last):
     per_round.setdefault(rnd, [0, 0])[1] += 1
     caught = "; ".join("%s: %s" % (q, ", ".join(c["subchecks"][:2])) for q, c in r["checks"].items() if c["violation"])
     n = notes.get(sid, {})
-    if n.get("missed_first"):
+    if n.get("out_of_domain"):
+        first = "outside the documented input domain the generators stay in: not caught, by construction"
+        outside.append(sid)
+    elif n.get("missed_first"):
         first = "missed → strengthened"
         missed += 1
         per_round[rnd][0] += 1
@@ -51,8 +54,8 @@ edit). Failing cases of these runs go to a throw-away directory (`VERIF_NEW_REPL
 `seeded/<id>/` holds patch, demo and meta (what it needs to manifest, what was run, which sub-checks fired);
 `seeded/RESULTS.md` is the full table, `seeded/last_run.json` the raw results.
 
-Outcome: all %d are caught by the quick tier — %d by the property they were aimed at, %d (%s) only by the property
-that owns the broken clause:
+Outcome: OUTSIDE_TEXT%d of %d are caught by the quick tier — %d by the property they were aimed at, %d (%s) only by the
+property that owns the broken clause:
 
 BYDESIGN_LIST
 %d were caught by the checks as built; %d were missed by the first version of the aimed check and led to the
@@ -80,7 +83,8 @@ author would again find dimensions the generators hold fixed. The misses fell in
 
 | seed | change (abridged) | caught by (quick tier) | history |
 |---|---|---|---|
-""" % (total, len(per_round), total, total - len(bydesign), len(bydesign), ", ".join(bydesign), built, missed, len(neigh), rounds) + "\n".join(rows) + "\n"
+""" % (total, len(per_round), total - len(outside), total, total - len(bydesign) - len(outside), len(bydesign), ", ".join(bydesign), built, missed, len(neigh), rounds) + "\n".join(rows) + "\n"
+new = new.replace("OUTSIDE_TEXT", ("%s (%s) is not caught at all and is not meant to be: %s. " % (", ".join(outside), "1 seed" if len(outside) == 1 else "%d seeds" % len(outside), "; ".join(notes[k]["note"] for k in outside))) if outside else "")
 new = new.replace("BYDESIGN_LIST\n", "".join("* %s — %s\n" % (k, notes.get(k, {}).get("note", "")) for k in bydesign) + "\n")
 open(p, "w").write(s[:i] + new)
 print(total, "seeds; missed first:", missed, "as built:", built, "by design elsewhere:", bydesign, "per round:", per_round)
